@@ -216,6 +216,16 @@ func (fc *FuncCtx) ensureConds() {
 	}
 }
 
+// inLoop: b belongs to a natural loop of the function.
+func (fc *FuncCtx) inLoop(b *ssa.BasicBlock) bool {
+	for _, body := range fc.loops {
+		if body[b] {
+			return true
+		}
+	}
+	return false
+}
+
 // Cond is the path condition of block b (False for unreachable blocks).
 func (fc *FuncCtx) Cond(b *ssa.BasicBlock) *bddNode {
 	fc.ensureConds()
@@ -489,6 +499,17 @@ func (fc *FuncCtx) formula0(v ssa.Value) *bddNode {
 			// a flag kept in a field of a local struct that is assigned once
 			if sv := fieldSingleStore(x); sv != nil {
 				return fc.Formula(sv)
+			}
+			// ... or that is zero until one conditional assignment of the whole struct from a literal: false where the
+			// assignment did not execute
+			if fa, ok := x.X.(*ssa.FieldAddr); ok && isBoolType(x.Type()) {
+				if al, ok := fa.X.(*ssa.Alloc); ok && al.Referrers() != nil && !al.Heap {
+					if sv, whole := fieldOnlyStore(x); sv != nil && fc.cond != nil && !fc.inLoop(whole.Block()) && !fc.inLoop(x.Block()) {
+						if c, ok := fc.cond[whole.Block()]; ok {
+							return B.And(c, fc.Formula(sv))
+						}
+					}
+				}
 			}
 			// a flag kept in a local that is assigned once (address taken, or captured by a closure)
 			if al, ok := x.X.(*ssa.Alloc); ok {
@@ -2205,15 +2226,127 @@ func (fc *FuncCtx) TimeTermOf(v ssa.Value) *TimeTerm {
 // fieldSingleStore: ld reads field k of a local struct that is only accessed field by field and whose field k is stored
 // exactly once, in a block that dominates the read: the stored value. nil otherwise.
 func fieldSingleStore(ld *ssa.UnOp) ssa.Value {
+	v, st := fieldOnlyStore(ld)
+	if v != nil && st != nil {
+		if st.Block() == ld.Block() && instrIndex(st) < instrIndex(ld) || st.Block() != ld.Block() && st.Block().Dominates(ld.Block()) {
+			return v
+		}
+		return nil
+	}
+	// several assignments of the field: the one that definitely reaches the load (it dominates the load, and no other
+	// assignment can execute between it and the load)
+	if st := reachingFieldStore(ld); st != nil {
+		return st.Val
+	}
+	return nil
+}
+
+// reachingFieldStore: among the stores to the field of a non-escaping local struct, the one whose value the load ld
+// certainly reads: it precedes and dominates ld, and every other store to the field either cannot execute before ld
+// (its block is not an ancestor of ld's block in the loop-free control flow, or it follows ld in ld's block) or executes
+// before that store (it dominates it). Blocks inside loops are not handled.
+func reachingFieldStore(ld *ssa.UnOp) *ssa.Store {
+	sts := localFieldStores(ld)
+	if len(sts) < 2 {
+		return nil
+	}
+	before := func(a, b ssa.Instruction) bool { // a certainly executes before b whenever b executes
+		if a.Block() == b.Block() {
+			return instrIndex(a) < instrIndex(b)
+		}
+		return a.Block().Dominates(b.Block())
+	}
+	canPrecede := func(a, b ssa.Instruction) bool { // a may execute before b on some path
+		if a.Block() == b.Block() {
+			return instrIndex(a) < instrIndex(b)
+		}
+		seen := map[*ssa.BasicBlock]bool{}
+		var walk func(x *ssa.BasicBlock) bool
+		walk = func(x *ssa.BasicBlock) bool {
+			if x == b.Block() {
+				return true
+			}
+			if seen[x] {
+				return false
+			}
+			seen[x] = true
+			for _, s := range x.Succs {
+				if walk(s) {
+					return true
+				}
+			}
+			return false
+		}
+		return walk(a.Block())
+	}
+	onCycle := func(b *ssa.BasicBlock) bool {
+		seen := map[*ssa.BasicBlock]bool{}
+		var walk func(x *ssa.BasicBlock) bool
+		walk = func(x *ssa.BasicBlock) bool {
+			for _, s := range x.Succs {
+				if s == b {
+					return true
+				}
+				if !seen[s] {
+					seen[s] = true
+					if walk(s) {
+						return true
+					}
+				}
+			}
+			return false
+		}
+		return walk(b)
+	}
+	if onCycle(ld.Block()) {
+		return nil // loops: not handled
+	}
+	for _, st := range sts {
+		if onCycle(st.Block()) {
+			return nil
+		}
+	}
+	var best *ssa.Store
+	for _, st := range sts {
+		if !before(st, ld) {
+			continue
+		}
+		ok := true
+		for _, o := range sts {
+			if o == st {
+				continue
+			}
+			if !canPrecede(o, ld) || before(o, st) {
+				continue
+			}
+			ok = false
+		}
+		if ok {
+			if best != nil {
+				return nil
+			}
+			best = st
+		}
+	}
+	return best
+}
+
+// fieldOnlyStore: the field read by ld belongs to a local struct whose address does not escape and which is never assigned
+// as a whole, and the field has exactly one store in the function (wherever it is): the stored value and the store.
+func fieldOnlyStore(ld *ssa.UnOp) (ssa.Value, *ssa.Store) {
 	fa, ok := ld.X.(*ssa.FieldAddr)
 	if !ok {
-		return nil
+		return nil, nil
 	}
 	al, ok := fa.X.(*ssa.Alloc)
 	if !ok || al.Referrers() == nil {
-		return nil
+		return nil, nil
+	}
+	if v, whole := fieldOfWholeAssignment(al, fa.Field, ld); v != nil {
+		return v, whole
 	}
 	var val ssa.Value
+	var only *ssa.Store
 	n := 0
 	for _, rf := range *al.Referrers() {
 		switch u := rf.(type) {
@@ -2222,19 +2355,16 @@ func fieldSingleStore(ld *ssa.UnOp) ssa.Value {
 				switch w := r2.(type) {
 				case *ssa.Store:
 					if w.Addr != ssa.Value(u) {
-						return nil // the field's address is stored somewhere
+						return nil, nil // the field's address is stored somewhere
 					}
 					if u.Field == fa.Field {
-						if !(w.Block() == ld.Block() && instrIndex(w) < instrIndex(ld) || w.Block() != ld.Block() && w.Block().Dominates(ld.Block())) {
-							return nil
-						}
-						val = w.Val
+						val, only = w.Val, w
 						n++
 					}
 				case *ssa.UnOp, *ssa.DebugRef:
 				default:
 					if u.Field == fa.Field {
-						return nil // address of the field escapes (method call with pointer receiver, argument)
+						return nil, nil // address of the field escapes (method call with pointer receiver, argument)
 					}
 				}
 			}
@@ -2245,19 +2375,123 @@ func fieldSingleStore(ld *ssa.UnOp) ssa.Value {
 				if sl, ok := u.Val.(*ssa.UnOp); ok && sl.Op == token.MUL && sl.X == ssa.Value(al) {
 					continue
 				}
-				return nil // assigned as a whole
+				return nil, nil // assigned as a whole
 			}
-			return nil // the address of the local is stored
+			return nil, nil // the address of the local is stored
 		case *ssa.UnOp:
 			// whole-struct read (passing it on by value): does not change it
+		default:
+			return nil, nil
+		}
+	}
+	if n == 1 {
+		return val, only
+	}
+	return nil, nil
+}
+
+// localFieldStores: every store to the field read by ld, when it is a field of a local struct that is only accessed field
+// by field in its function (no whole assignment, no address passed on): the values the field can hold at the load are
+// among the stored ones (or the zero value, when no store dominates the load).
+func localFieldStores(ld *ssa.UnOp) []*ssa.Store {
+	fa, ok := ld.X.(*ssa.FieldAddr)
+	if !ok {
+		return nil
+	}
+	al, ok := fa.X.(*ssa.Alloc)
+	if !ok || al.Referrers() == nil {
+		return nil
+	}
+	var out []*ssa.Store
+	for _, rf := range *al.Referrers() {
+		switch u := rf.(type) {
+		case *ssa.FieldAddr:
+			for _, r2 := range *u.Referrers() {
+				switch w := r2.(type) {
+				case *ssa.Store:
+					if w.Addr != ssa.Value(u) {
+						return nil
+					}
+					if u.Field == fa.Field {
+						out = append(out, w)
+					}
+				case *ssa.UnOp, *ssa.DebugRef:
+				default:
+					if u.Field == fa.Field {
+						return nil
+					}
+				}
+			}
+		case *ssa.UnOp, *ssa.DebugRef:
 		default:
 			return nil
 		}
 	}
-	if n == 1 {
-		return val
+	return out
+}
+
+// fieldOfWholeAssignment: the local struct al is assigned exactly once, as a whole, from a composite literal
+// (x = T{f: v, ...}), by a store that dominates the load, and is otherwise only read field by field or as a whole: the
+// value the literal gives the field. (A field the literal does not mention is its zero value: not resolved here.)
+func fieldOfWholeAssignment(al *ssa.Alloc, field int, ld *ssa.UnOp) (ssa.Value, *ssa.Store) {
+	var whole *ssa.Store
+	for _, rf := range *al.Referrers() {
+		switch u := rf.(type) {
+		case *ssa.Store:
+			if u.Addr != ssa.Value(al) || whole != nil {
+				return nil, nil
+			}
+			whole = u
+		case *ssa.FieldAddr:
+			for _, r2 := range *u.Referrers() {
+				switch r2.(type) {
+				case *ssa.UnOp, *ssa.DebugRef:
+				default:
+					return nil, nil // a field is written separately, or its address is used
+				}
+			}
+		case *ssa.UnOp, *ssa.DebugRef:
+		default:
+			return nil, nil
+		}
 	}
-	return nil
+	if whole == nil {
+		return nil, nil
+	}
+	src, ok := whole.Val.(*ssa.UnOp)
+	if !ok || src.Op != token.MUL {
+		return nil, nil
+	}
+	lit, ok := src.X.(*ssa.Alloc)
+	if !ok || lit.Comment != "complit" || lit.Referrers() == nil {
+		return nil, nil
+	}
+	var val ssa.Value
+	for _, rf := range *lit.Referrers() {
+		switch u := rf.(type) {
+		case *ssa.FieldAddr:
+			for _, r2 := range *u.Referrers() {
+				st, ok := r2.(*ssa.Store)
+				if !ok || st.Addr != ssa.Value(u) {
+					return nil, nil
+				}
+				if u.Field == field {
+					if val != nil {
+						return nil, nil
+					}
+					val = st.Val
+				}
+			}
+		case *ssa.UnOp:
+			if u != src {
+				return nil, nil
+			}
+		case *ssa.DebugRef:
+		default:
+			return nil, nil
+		}
+	}
+	return val, whole
 }
 
 func instrIndex(in ssa.Instruction) int {
